@@ -46,6 +46,8 @@ func c11Op(r *rng, sym byte) hop {
 		return hop{op: 'I'}
 	case '0', '1', '2', '3':
 		return hop{op: 'M', doc: c11Metas[sym-'0']}
+	case 'n': // SetMetadata with an unreadable value: refused, what was set before stays
+		return hop{op: 'N'}
 	}
 	panic("c11 sym")
 }
@@ -53,7 +55,7 @@ func c11Op(r *rng, sym byte) hop {
 func c11Erase(ops []hop) []hop {
 	out := []hop{}
 	for _, h := range ops {
-		if h.op != 'M' {
+		if h.op != 'M' && h.op != 'N' {
 			out = append(out, h)
 		}
 	}
@@ -281,6 +283,9 @@ func init() {
 						for q := p; q <= len(base); q++ {
 							one := ins(base, q, '1')
 							mk(ins(one, p, '0')) // replaced by a different document
+							if (p+q)%2 == 1 {
+								mk(ins(ins(base, q, 'n'), p, '0')) // a refused SetMetadata after an accepted one
+							}
 							if (p+q)%2 == 0 {
 								mk(ins(ins(base, q, '2'), p, '2')) // re-set to the same document
 							}
@@ -321,7 +326,7 @@ func init() {
 			c.wrapper = pickWrapper(r, c.kind)
 			l := 5 + r.intn(40)
 			for i := 0; i < l; i++ {
-				sym := "aaaaaaabbbgurrxff00123i"[r.intn(23)]
+				sym := "aaaaaaabbbgurrxff00123in"[r.intn(24)]
 				c.ops = append(c.ops, c11Op(r, sym))
 			}
 			c.ops = append(c.ops, hop{op: 'R'})
